@@ -20,6 +20,8 @@ def parse_robots(text):
     groups = []
     current = None
     last_was_agent = False
+    if text.startswith('\xef\xbb\xbf') or text.startswith('\ufeff'):
+        text = text[3:] if text.startswith('\xef') else text[1:]      # a byte order mark in front of the first line is not content
     for raw in text.splitlines():
         line = raw.split('#', 1)[0].strip()
         if not line or ':' not in line:
@@ -127,6 +129,9 @@ def gen_robots(rng, site, agent_token):
             lines.append('%s: %s%s\n' % (k, v, rng.choice(['', ' # trailing', '\t#x']) if comments and v else ''))
         lines.append('\n')
     text = ''.join(lines)
+    if rng.random() < 0.15:
+        # saved by an editor that writes a UTF-8 byte order mark (the three bytes EF BB BF; the file is served as Latin-1)
+        text = '\xef\xbb\xbf' + text
     if rng.random() < 0.4:
         text = text.rstrip('\n')       # file ends right after its last rule, no final newline
     return text, pad_position + ('+comments' if comments else '')
@@ -164,6 +169,10 @@ def build(case):
         for p in rr.sample(html, max(1, len(html) // 3)):
             p.nofollow = True
             p.extra_head = '<meta name="robots" content="%s">' % rr.choice(['nofollow', 'noindex, nofollow', 'NOFOLLOW'])
+            if rr.random() < 0.4:
+                # several robots meta elements: any of them may carry the nofollow
+                p.extra_head = rr.choice(['<meta name="robots" content="max-image-preview:large">', '<meta name="robots" content="index">',
+                                          '<meta name="ROBOTS" content="noarchive">']) + p.extra_head
             if rr.random() < 0.5:
                 # a followable link that precedes the meta element in the document
                 p.extra_head = '<link rel="%s" href="/early-%d.html">' % (rr.choice(['next', 'canonical', 'prev']),
